@@ -322,6 +322,28 @@ def check_case(ctx, case, full=True):
                 inds = inds0
             cmp_form(name, r, impl[inds.astype(np.int64), j], j, {"inds": inds.tolist()})
             ctx.sig(kind, subtype, name)
+    # narrow integer positions on an array longer than their dtype can count (the array repeated to 300+ rows)
+    if n and len(jsel):
+        reps = 300 // n + 1
+        ok, big, tb = ctx.guarded(lambda: gg.array_class(kind)._concat_same_type([arr] * reps))
+        if ok:
+            nb = len(big)
+            for j in jsel[:2]:
+                bx = tuple(boxes_f[j])
+                ok, whole, tb = ctx.guarded(big.intersects_bounds, bx)
+                if not ok:
+                    rec_raise("long-array", whole, tb, "long-array")
+                    break
+                cmp_form("long-array", whole, np.tile(impl[:, j], reps), j)
+                for dt_, pos in ((np.uint8, [255, 0, 254, 128, 127]), (np.int8, [127, 1, 126, 0]),
+                                 (np.int16, [nb - 1, 0, 255, 256]), (np.uint16, [nb - 1, 128, 256])):
+                    inds = np.array(pos, dtype=dt_)
+                    ok, r, tb = ctx.guarded(big.intersects_bounds, bx, inds)
+                    if not ok:
+                        rec_raise(f"inds-{np.dtype(dt_).name}-long-array", r, tb, f"inds-{np.dtype(dt_).name}")
+                        continue
+                    cmp_form(f"inds-{np.dtype(dt_).name}-long-array", r, np.asarray(whole)[pos], j, {"inds": pos})
+                    ctx.sig(kind, subtype, f"inds-{np.dtype(dt_).name}-long-array")
     # scalar form
     jsel2 = jsel[:8]
     for i in range(n):
